@@ -23,6 +23,9 @@ N15 `for (I, X) in E.iter().enumerate() { B }`  ->  `{ let mut I: usize = 0; whi
 N16 `for (I, W) in E.windows(K).enumerate() { B }`  ->  `{ let mut I: usize = 0; while E.len() >= K && I <= E.len() - K
     { let W = &E[I..I + K]; B I += 1; } }`  (K an integer literal >= 1; same side conditions as N15: `windows(K)` yields
     exactly the sub-slices E[i..i+K] for i = 0..=len-K, in order, and nothing when len < K)
+N17 `for (I, X) in E.iter().map(|P| F).enumerate() { B }`  ->  `{ let mut I: usize = 0; while I < E.len()
+    { let X = { let P = &E[I]; F }; B I += 1; } }`  (the closure body F, a single expression without `return`, is evaluated
+    once per element, in order, immediately before the body -- as the lazy adapter does; same side conditions as N15)
 N9  declared literal substitutions at named sites (each listed in the unit spec with its justification)
 """
 import re
@@ -409,6 +412,34 @@ def n16_windows_enumerate_loops(text, applied, where):
         text = text[:m.start()] + new + text[c + 1:]
 
 
+def n17_map_enumerate_loops(text, applied, where):
+    """for (I, X) in E.iter().map(|P| F).enumerate() { B }  ->  indexed while loop (see the module docstring)."""
+    while True:
+        masked = rustlex.mask(text)
+        m = re.search(r"\bfor\s*\(\s*([A-Za-z_]\w*)\s*,\s*([A-Za-z_]\w*)\s*\)\s*in\s+([A-Za-z_][\w.]*)\.iter\(\)\.map\(\s*\|\s*([A-Za-z_]\w*)\s*\|", masked)
+        if not m:
+            return text
+        idx, item, expr, par = m.group(1), m.group(2), m.group(3), m.group(4)
+        po = masked.rfind("(", 0, m.end())            # the `(` of map(
+        pc = rustlex.match_bracket(masked, po)
+        fbody = text[m.end():pc].strip()
+        fm = masked[m.end():pc]
+        tail = re.match(r"\.enumerate\(\)\s*\{", masked[pc + 1:])
+        if not tail or re.search(r"\breturn\b|\?", fm) or fm.strip().startswith("{"):
+            raise rustlex.LexError("N17 does not apply: not `.map(|p| expr).enumerate() {` with a plain expression closure")
+        o = pc + 1 + tail.end() - 1
+        c = rustlex.match_bracket(masked, o)
+        body_m = masked[o + 1:c]
+        if re.search(r"\bcontinue\b", body_m) or re.search(r"\b%s\s*(?:[+\-*/%%^|&]|<<|>>)?=(?!=)" % re.escape(idx), body_m):
+            raise rustlex.LexError("N17 does not apply: the loop body has `continue` or assigns its index")
+        ind = _indent_of_line(text, m.start())
+        body = text[o + 1:c].rstrip()
+        new = ("{\n%slet mut %s: usize = 0;\n%swhile %s < %s.len() {\n%s    let %s = { let %s = &%s[%s]; %s };%s\n%s    %s += 1;\n%s}\n%s}"
+               % (ind, idx, ind, idx, expr, ind, item, par, expr, idx, fbody, body, ind, idx, ind, ind))
+        applied.add("N17", where, "for (%s, %s) in %s.iter().map(|%s| %s).enumerate() -> indexed while loop" % (idx, item, expr, par, fbody))
+        text = text[:m.start()] + new + text[c + 1:]
+
+
 def strip_visibility(text):
     return re.sub(r"^(\s*)pub(?:\([^)]*\))?\s+", r"\1", text, count=1)
 
@@ -428,6 +459,8 @@ def normalise_fn(text, where, applied, rules, literal_subs=(), keep_visibility=F
         text = n15_enumerate_loops(text, applied, where)
     if "N16" in rules:
         text = n16_windows_enumerate_loops(text, applied, where)
+    if "N17" in rules:
+        text = n17_map_enumerate_loops(text, applied, where)
     for (rule, old, new, why) in literal_subs:
         if old in text:
             text = text.replace(old, new)
